@@ -17,7 +17,7 @@ def backend_pass(backend):
   return P
 
 def setup_path(designs_dir):
-  for p in (designs_dir, '/repo'):
+  for p in (designs_dir, os.environ.get('PV_REPO', '/repo')):
     if p not in sys.path: sys.path.insert(0, p)
 
 def translate(make_top, backend, outdir):
